@@ -69,34 +69,32 @@ Proof. apply (evolves_step s (OMod mods)). Qed.
 Lemma evolves_expire now s : evolves s (sub_expire now s).
 Proof. apply (evolves_step s (OExpire now)). Qed.
 
-Lemma evolves_drain fuel max now : forall s, evolves s (fst (drain fuel max now s)).
+Lemma evolves_serve fuel now : forall s c, evolves s (fst (serve fuel now s c)).
 Proof.
-  induction fuel as [|f IH]; intros s; simpl; [apply evolves_refl|].
+  induction fuel as [|f IH]; intros s c; simpl; [apply evolves_refl|].
   destruct (s_backlog s) as [|m b] eqn:Eb; [apply evolves_refl|].
-  pose proof (evolves_pull max now s) as E1. destruct (sub_pull max now s) as [s1 ls]. simpl in E1.
-  specialize (IH s1). destruct (drain f max now s1) as [s2 r]. simpl in *.
-  eapply evolves_trans; eauto.
+  destruct (first_waiter (s_uid s) (c_waiters c)) as [[k rest]|]; [|apply evolves_refl].
+  destruct k as [sid|id max limit].
+  - destruct (find_stream sid (c_streams c)) as [st|]; [|apply IH].
+    eapply evolves_trans; [apply (evolves_pull (st_max st) now s)|apply IH].
+  - eapply evolves_trans; [apply (evolves_pull max now s)|apply IH].
 Qed.
 
-Lemma evolves_settle_sub now touched sts s : evolves s (fst (settle_sub now touched sts s)).
+Lemma evolves_settle_sub now touched c s : evolves s (fst (settle_sub now touched c s)).
 Proof.
   unfold settle_sub.
-  set (s1 := if touched || timer_fired now s then sub_expire now s else s).
-  assert (E1 : evolves s s1) by (unfold s1; destruct (touched || timer_fired now s); [apply evolves_expire|apply evolves_refl]).
-  destruct (first_open_stream (s_uid s1) sts) as [st|]; [|exact E1].
-  destruct (s_backlog s1) as [|m b] eqn:Eb; [exact E1|].
-  pose proof (evolves_drain (length (m :: b)) (st_max st) now s1) as E2.
-  destruct (drain (length (m :: b)) (st_max st) now s1) as [s2 rs]. simpl in *.
-  eapply evolves_trans; [exact E1|]. eapply evolves_trans; [exact E2|]. apply evolves_expire.
+  set (s1 := if actor_runs now touched c s then sub_expire now s else s).
+  assert (E1 : evolves s s1) by (unfold s1; destruct (actor_runs now touched c s); [apply evolves_expire|apply evolves_refl]).
+  eapply evolves_trans; [exact E1|apply evolves_serve].
 Qed.
 
-Lemma settle_subs_evolve now touched : forall ss sts,
-  Forall2 evolves ss (fst (settle_subs now touched ss sts)).
+Lemma settle_subs_evolve now touched : forall ss c,
+  Forall2 evolves ss (fst (settle_subs now touched ss c)).
 Proof.
-  induction ss as [|s ss IH]; intros sts; simpl; [constructor|].
-  pose proof (evolves_settle_sub now (touched (s_uid s)) sts s) as E.
-  destruct (settle_sub now (touched (s_uid s)) sts s) as [s' sts1]. simpl in E.
-  specialize (IH sts1). destruct (settle_subs now touched ss sts1) as [r sts2]. simpl in *.
+  induction ss as [|s ss IH]; intros c; simpl; [constructor|].
+  pose proof (evolves_settle_sub now (touched (s_uid s)) c s) as E.
+  destruct (settle_sub now (touched (s_uid s)) c s) as [s' c1]. simpl in E.
+  specialize (IH c1). destruct (settle_subs now touched ss c1) as [r c2]. simpl in *.
   constructor; assumption.
 Qed.
 
@@ -172,8 +170,8 @@ Qed.
 
 Lemma settle_subs_step touched sv : subs_step (sv_subs sv) (sv_subs (settle touched sv)).
 Proof.
-  unfold settle. pose proof (settle_subs_evolve (sv_now sv) touched (sv_subs sv) (sv_streams sv)) as F.
-  destruct (settle_subs (sv_now sv) touched (sv_subs sv) (sv_streams sv)) as [ss sts]. simpl in *.
+  unfold settle. pose proof (settle_subs_evolve (sv_now sv) touched (sv_subs sv) (sv_cons sv)) as F.
+  destruct (settle_subs (sv_now sv) touched (sv_subs sv) (sv_cons sv)) as [ss sts]. simpl in *.
   apply subs_step_forall2. exact F.
 Qed.
 
